@@ -1762,6 +1762,23 @@ func main() {
 		}
 		out.Line("%s => %s", c.input(), res)
 	}
+	var fsSrv *fsServer
+	emitFS := func(c fsCase) {
+		if fsSrv == nil {
+			var err error
+			if fsSrv, err = newFsServer(); err != nil {
+				out.Line("# inconclusive cannot set up the REST API: %s", strings.ReplaceAll(err.Error(), "\n", " "))
+				out.Flush()
+				os.Exit(0)
+			}
+		}
+		res, inc := runFS(fsSrv, c)
+		if inc != "" {
+			out.Line("# inconclusive %s (%s)", c.input(), strings.ReplaceAll(inc, "\n", " "))
+			return
+		}
+		out.Line("%s => %s", c.input(), res)
+	}
 	if a.Extra["stdin"] != "" {
 		sc := bufio.NewScanner(os.Stdin)
 		sc.Buffer(make([]byte, 1<<20), 1<<24)
@@ -1790,6 +1807,12 @@ func main() {
 			case "tr":
 				if c, ok := parseTR(f[2:]); ok {
 					emitTR(c)
+				} else {
+					out.Line("# skipped unparsable %s", line)
+				}
+			case "fs":
+				if c, ok := parseFS(f[2:]); ok {
+					emitFS(c)
 				} else {
 					out.Line("# skipped unparsable %s", line)
 				}
@@ -1823,6 +1846,8 @@ func main() {
 			emitTF(genTF(r, k, total, thorough))
 		} else if mode == "tr" {
 			emitTR(genTR(r, k, total, thorough))
+		} else if mode == "fs" {
+			emitFS(genFS(r))
 		} else if k%2 == 0 {
 			emitG(genGc(r))
 		} else {
